@@ -160,6 +160,7 @@ var c09Share = core.Mon(c09, "concurrent-share", func(w *core.W, c *RaceCfg) {
 		"n0(1)", "s0()", "m(2)", "arr()", "fid(arr...)", "fcat('a', arr...)", "abs(arr...)", "b0 ? n1(1) : s1(1)", "fnoret()", "m.k(1)", "left('a')", "right('a', 1, 2)", "fctx()", "undefinedfn(1)", "undefinedname.f(1)"}
 	// long lists whose elements bind and read locals: an evaluation proceeds element by element, in its own runner
 	// trees the field analysis refuses (member access on something that is not a name or path): the refusal is formed concurrently too
+	hot = append(hot, "[frowA(ra), frowB(rb)]", "frowB(rb) - frowA(ra)")
 	hot = append(hot, "fid(m).k", "(m).k + 1", "fcurry(n0)(n1).x", "[fid(st).A,\n fid(st).S]", "('s' + s0).len")
 	hot = append(hot, "[$q = n0"+strings.Repeat(", $q", 254)+", $q = $q + 1, $q]", "["+strings.Repeat("$r = ($r ?? n0) + 1, ", 199)+"$r]", "fcat("+strings.Repeat("$t = s0, $t, ", 80)+"'e')")
 	srcs = append(hot, srcs...)
@@ -473,6 +474,12 @@ var c09Share = core.Mon(c09, "concurrent-share", func(w *core.W, c *RaceCfg) {
 				report(mismatch{g, -1, fmt.Sprintf("own parse of %q", probes[o.tree]), want, o.out})
 			}
 			probeChecks++
+		}
+	}
+	// one outcome known by construction: two host functions whose parameter types print alike are two functions
+	if sc, err := hostParse([]byte("[frowA(ra), frowB(rb)]"), true); err == nil {
+		if got := evalOutcome(sc, datas[0]); !strings.Contains(got, "7003") || !strings.Contains(got, "2050") {
+			report(mismatch{0, -1, "[frowA(ra), frowB(rb)]", "VALUE [7003 2050]", got})
 		}
 	}
 	w.Eval(int(evals))
